@@ -300,7 +300,7 @@ PLANS["C10"] = dict(
     write_evidence=False,
     liveness=[("fault", dict(MinDelay=3, MaxRADelay=1, MinIv=4, MaxIv=4, Hosts='{"h1"}', Kinds='{"readerr"}', MaxIn=1, MaxT=5, MaxHolds=1, WriteFaults="TRUE"), dict(MaxIn=2, MaxT=6, LinkFaults="TRUE", Kinds='{"readerr", "timeout"}'))],
     mc=[("c10", dict(Hosts='{"h1"}', Kinds='{"timeout", "readerr"}', MaxIn=3, MaxT=6, Retries=2, WriteFaults="TRUE",
-                     LinkFaults="TRUE", MaxHolds=0), dict(MaxIn=4, MaxT=7, MaxHolds=1))],
+                     LinkFaults="TRUE", MaxHolds=0), dict(MaxIn=4, MaxT=6, MaxHolds=0))],
     env=[("a", dict(Srcs='{"h1", "unspec"}', Kinds='{"timeout", "readerr_other", "readerr_sys", "link"}',
                     FailDsts='{"h1", "allnodes"}', Terms="{TRUE}", MaxEv=3, MaxT=7), dict(MaxEv=4, MaxT=8),
           [DEF, FAST, dict(cfg=dict(DEF["cfg"], mode="mon")), dict(cfg=dict(DEF["cfg"], dials=["ok", "lnr", "ok"]))])],
